@@ -2,6 +2,7 @@
 import random
 from fractions import Fraction
 
+from .. import common as C
 from .. import oracles as O
 from .. import gen, simcheck
 from ..propkit import Kit
@@ -232,16 +233,107 @@ def gen_cases(rng, n_sort, n_sim):
     return cases
 
 
+def _q(x):
+    return C.coq_q(Fraction(x))
+
+
+def _name(n):
+    return "%d%%nat" % int(n[1:])
+
+
+def _skills(d):
+    return C.coq_list(["(%s, %s)" % (_name(k), _q(v)) for k, v in d.items()])
+
+
+def _nats(l):
+    return C.coq_list(["%d%%nat" % x for x in l])
+
+
+def coq_sort_case(case, order):
+    """Coq literal for Model/SortCorr.v; None when the case is outside the model's encoding"""
+    kind, rule = case["sort"], case["rule"]
+    if kind == "task":
+        if rule in (7, 8) and len(set(it["wf"] for it in case["items"])) > 1:
+            return None          # the model has one workflow
+        cpl = case["cpl"][case["items"][0]["wf"]] if case["items"] else "0"
+        it = case["items"]
+        return ("task", "(%s, %s, %s, %s, %s, %s, %s, %s)" % (
+            C.coq_z(rule), C.coq_list([_q(x["work"]) for x in it]), C.coq_list([_q(x["est"]) for x in it]),
+            C.coq_list([_q(x["lst"]) for x in it]), C.coq_list([_q(x["rem"]) for x in it]),
+            C.coq_list([C.coq_list([C.coq_z(v) for v in x["log"]]) for x in it]), _q(cpl), _nats(order)))
+    wpn = lambda x: "None" if x is None else "(Some %d%%nat)" % int(x[2:])
+    if kind == "worker":
+        return ("worker", "(%s, %s, %s, %s, %s)" % (
+            C.coq_z(rule), _name(case["name"]), wpn(case.get("target")),
+            C.coq_list(["(%s, %s, %s)" % (_q(x["cost"]), _skills(x["skills"]), wpn(x["mainwp"])) for x in case["items"]]),
+            _nats(order)))
+    if kind == "facility":
+        return ("fac", "(%s, %s, %s, %s)" % (
+            C.coq_z(rule), _name(case["name"]),
+            C.coq_list(["(%s, %s)" % (_q(x["cost"]), _skills(x["skills"])) for x in case["items"]]), _nats(order)))
+    return ("wp", "(%s, %s, %s, %s)" % (
+        C.coq_z(rule), _name(case["name"]),
+        C.coq_list(["(%s, %s, %s)" % (_q(x["cap"]), C.coq_list([_q(z) for z in x["placed"]]),
+                                      C.coq_list([_skills(f) for f in x["facs"]])) for x in case["items"]]), _nats(order)))
+
+
+SORT_CHK = {"task": "chk_sort_task", "worker": "chk_sort_worker", "fac": "chk_sort_fac", "wp": "chk_sort_wp"}
+
+
+def model_sort_mismatches(ctx, entries):
+    """entries: list of (family, coq text, case index); returns indices where the model disagrees"""
+    import os
+    from concurrent.futures import ThreadPoolExecutor
+    fams = ["task", "worker", "fac", "wp"]
+    jobs = []
+    for k in range(0, len(entries), 800):
+        chunk = entries[k:k + 800]
+        path = os.path.join(ctx["work"], "sort_%d.v" % (k // 800))
+        lines = ["From Coq Require Import List ZArith QArith.", "From PV Require Import Model.Types Model.Corr Model.SortCorr.",
+                 "Import ListNotations.", "Open Scope Q_scope."]
+        layout = []
+        for fam in fams:
+            es = [e for e in chunk if e[0] == fam]
+            layout.append([e[2] for e in es])
+            lines.append("Eval vm_compute in (mismatches %s %s)." % (SORT_CHK[fam], C.coq_list([e[1] for e in es]) if es else "[]"))
+        with open(path, "w") as f:
+            f.write("\n".join(lines) + "\n")
+        jobs.append((path, layout))
+
+    def one(job):
+        path, layout = job
+        lists, _ = C.coq_eval_nat_lists(path, cwd=ctx["work"])
+        return [idxs[j] for idxs, res in zip(layout, lists) for j in res]
+    bad = []
+    with ThreadPoolExecutor(max_workers=8) as ex:
+        for b in ex.map(one, jobs):
+            bad += b
+    return bad
+
+
 def run(ctx):
     rng = random.Random(ctx["seed"])
     th = ctx["tier"] == "thorough"
     cases = simcheck.load_corpus("C11") + gen_cases(rng, 20000 if th else 1500, 20000 if th else 500)
     results = simcheck.run_cases(ctx, "harness.props.c11", cases)
-    return simcheck.summarise(ctx, cases, results,
+    # model side of the pure sort cases: the implementation's order is checked by Model/SortCorr.v under vm_compute
+    entries, n_model = [], 0
+    for r in results:
+        cs = cases[r["idx"]]
+        if "sort" in cs and (r.get("summary") or {}).get("order") is not None:
+            enc = coq_sort_case(cs, r["summary"]["order"])
+            if enc is not None:
+                entries.append(enc + (r["idx"],))
+    for i in model_sort_mismatches(ctx, entries):
+        r = next(x for x in results if x["idx"] == i)
+        r.setdefault("disagreements", []).append("Model/Sim.v sort function orders this list differently from the implementation: %s" % r["summary"])
+    res = simcheck.summarise(ctx, cases, results,
                               "pure stream: lists of 0-7 tasks/workers/facilities/workplaces with tied and missing keys and "
                               "equal-but-distinct ID strings under every rule of every sort function; contention stream: "
                               "simulations under all 9 task rules and all resource rules, every new allocation checked "
                               "against the priority order of the waiting tasks")
+    res["extra"]["pure_sort_cases_checked_against_model"] = len(entries)
+    return res
 
 
 K = Kit("C11", None)
